@@ -232,6 +232,35 @@ class TFail(_TOp):
         raise VerifProcError("boom")
 
 
+class KwOnlyError(Exception):
+    """An exception that cannot be rebuilt from its own .args (keyword-only constructor), like several library errors."""
+
+    def __init__(self, *, code):
+        super().__init__(f"code {code}")
+        self.code = code
+
+
+class TFailKw(_TOp):
+    """Operation raising an exception with a keyword-only constructor."""
+
+    def _process_logic(self, data):
+        raise KwOnlyError(code=3)
+
+
+class TFailKeyObj(_TOp):
+    """Operation failing like an ordinary `mapping[key]` lookup whose key is not JSON-serialisable."""
+
+    def _process_logic(self, data):
+        raise KeyError(frozenset({"k", 1}))
+
+
+class TFailEmpty(_TOp):
+    """Operation raising an exception without any message (like a bare `assert` or `raise NotImplementedError`)."""
+
+    def _process_logic(self, data):
+        raise NotImplementedError
+
+
 class TFailMsg(_TOp):
     """Operation that raises the processor's own error with a caller-supplied message (C06: unusual text in error fields)."""
 
@@ -291,6 +320,13 @@ class TProbeP(_TProbe):
 
     def _process_logic(self, data, a):
         return ["probep", data.data, a]
+
+
+class TProbeEcho(_TProbe):
+    """Probe whose result is its parameter `val` itself — including falsy results (0, 0.0, False, "", [], {})."""
+
+    def _process_logic(self, data, val):
+        return val
 
 
 class TFailProbe(_TProbe):
